@@ -301,7 +301,7 @@ pub fn check_c04(input: &[u8], acc: &mut Acc) {
         Some((m, enc))
     });
     let Ok(Some((mut m, enc))) = r else { return };
-    let mut viol = |class: &str, msg: String, acc: &mut Acc| {
+    let viol = |class: &str, msg: String, acc: &mut Acc| {
         acc.violation(Violation::new(class, msg, case()));
     };
     let mut lines = enc.lines();
